@@ -135,7 +135,7 @@ pub struct Rig {
     pub panics: Vec<String>,
 }
 
-fn port_of(addr: &SocketAddr) -> (usize, Port) {
+pub fn port_of(addr: &SocketAddr) -> (usize, Port) {
     let p = addr.port() - BASE_PORT;
     let node = (p % 100) as usize;
     let kind = match p / 100 {
@@ -209,6 +209,9 @@ impl BlockDict {
                 v["t"] = json!("blk");
                 if let Some(o) = v.as_object_mut() {
                     o.remove("unknown");
+                    if !o.contains_key("payload") {
+                        o.insert("payload".to_string(), json!([]));
+                    }
                 }
                 v
             })
@@ -256,6 +259,13 @@ impl BlockDict {
         self.blocks.push(block);
         self.fresh.push(id);
         id
+    }
+
+    pub fn set_payload(&mut self, id: usize, payload: Value) {
+        let ix = self.ix(id);
+        if id != 0 {
+            self.info[ix]["payload"] = payload;
+        }
     }
 
     pub fn placeholder(&mut self, d: Digest, round_hint: i64) -> usize {
@@ -516,11 +526,15 @@ impl Rig {
         let round = b["round"].as_u64().unwrap();
         let author = self.idx_of_hex(b["author"].as_str().unwrap());
         let pk = b["payload"].to_string();
-        if let Some(id) = self.dict.id_of_digest(&digest) {
-            self.dict.refine(id, round, author, &parent);
-            return id;
-        }
-        self.dict.intern(digest, round, author, &parent, &pk, None)
+        let id = match self.dict.id_of_digest(&digest) {
+            Some(id) => {
+                self.dict.refine(id, round, author, &parent);
+                id
+            }
+            None => self.dict.intern(digest, round, author, &parent, &pk, None),
+        };
+        self.dict.set_payload(id, b["payload"].clone());
+        id
     }
 
     fn blk_id_from_hex(&mut self, h: &str, round_hint: i64) -> usize {
@@ -540,7 +554,7 @@ impl Rig {
             .as_array()
             .unwrap()
             .iter()
-            .map(|v| v[1].as_i64().unwrap())
+            .map(|v| v[1].as_i64().unwrap_or(i64::MAX))
             .max()
             .unwrap_or(-1);
         json!({"round": tc["round"], "hqr": hqr})
@@ -560,7 +574,7 @@ impl Rig {
     }
 
     fn abs_qc(&mut self, qc: &Value) -> Value {
-        let id = self.blk_id_from_hex(qc["hash"].as_str().unwrap(), qc["round"].as_i64().unwrap());
+        let id = self.blk_id_from_hex(qc["hash"].as_str().unwrap(), qc["round"].as_i64().unwrap_or(i64::MAX));
         let signers: Vec<i64> = qc["signers"]
             .as_array()
             .unwrap()
@@ -626,7 +640,7 @@ impl Rig {
                         ("Propose", json!({"blk":id,"tc":self.abs_tc(&e["b"]["tc"]), "qc": qc, "tcfull": self.abs_tc_full(&e["b"]["tc"]), "npayload": e["b"]["payload"].as_array().map(|a| a.len()).unwrap_or(0)}))
                     }
                     (_, "Vote") => {
-                        let id = self.blk_id_from_hex(e["v"]["hash"].as_str().unwrap(), e["v"]["round"].as_i64().unwrap());
+                        let id = self.blk_id_from_hex(e["v"]["hash"].as_str().unwrap(), e["v"]["round"].as_i64().unwrap_or(i64::MAX));
                         ("Vote", json!({"blk":id,"round":e["v"]["round"],"author":self.idx_of_hex(e["v"]["author"].as_str().unwrap())}))
                     }
                     (_, "Timeout") => {
@@ -651,11 +665,11 @@ impl Rig {
                 }
             }
             "Vote" => {
-                let id = self.blk_id_from_hex(e["blk"].as_str().unwrap(), e["round"].as_i64().unwrap());
+                let id = self.blk_id_from_hex(e["blk"].as_str().unwrap(), e["round"].as_i64().unwrap_or(i64::MAX));
                 core_effect(self, json!({"k":"vote","blk":id}));
             }
             "Commit" => {
-                let id = self.blk_id_from_hex(e["blk"].as_str().unwrap(), e["round"].as_i64().unwrap());
+                let id = self.blk_id_from_hex(e["blk"].as_str().unwrap(), e["round"].as_i64().unwrap_or(i64::MAX));
                 core_effect(self, json!({"k":"commit","blk":id}));
             }
             "TimeoutMade" => {
@@ -725,7 +739,7 @@ impl Rig {
     }
 
     fn abs_st(&mut self, st: &Value) -> Value {
-        let hq = self.blk_id_from_hex(st["hq"].as_str().unwrap(), st["hqr"].as_i64().unwrap());
+        let hq = self.blk_id_from_hex(st["hq"].as_str().unwrap(), st["hqr"].as_i64().unwrap_or(i64::MAX));
         json!({"r":st["r"],"lv":st["lv"],"lc":st["lc"],"hqr":st["hqr"],"hq":hq})
     }
 
@@ -791,6 +805,17 @@ impl Rig {
         self.pump(f.from);
     }
 
+    /// Cut every connection from or to a node (the transports on both sides see EOF / broken pipe).
+    pub fn cut_node(&mut self, x: usize) {
+        for c in self.conns.iter_mut() {
+            if c.origin == x || c.dest == x {
+                c.out = None;
+                c.to_dest = None;
+            }
+        }
+        self.inject.retain(|(to, _), _| *to != x);
+    }
+
     /// Cut the connection a frame travelled on (both directions).
     pub fn cut(&mut self, conn: usize) {
         self.conns[conn].out = None;
@@ -852,10 +877,13 @@ impl Rig {
         simnet::set_current(i);
         let node = self.nodes[i].as_mut().unwrap();
         let mut store = node.store.clone();
+        let hexkey = simnet::hex(&key);
         node.rt.block_on(async move {
             store.write(key, value).await;
             settle(5).await;
         });
+        // recorded like the Processor's hook: the node's store now holds this key
+        self.events.push(json!({"t":"mp","k":"BatchStored","node":i,"digest":hexkey,"by":"harness"}));
     }
 
     /// Read a value from node i's store.
